@@ -311,6 +311,21 @@ func cmdCheck(args []string) int {
 			if isKnown(e.Name) != nil {
 				continue
 			}
+			if i := strings.LastIndex(e.Name, "#"); i > 0 && !strings.Contains(e.Name[i:], "/") {
+				// the k-th program point of a clause: fine as long as the clause is still
+				// generated at some program point (the code has fewer paths or call sites now)
+				stem := e.Name[:i]
+				still := false
+				for n := range byName {
+					if n == stem || strings.HasPrefix(n, stem+"#") {
+						still = true
+						break
+					}
+				}
+				if still {
+					continue
+				}
+			}
 			o := &Obligation{Name: e.Name, Kind: e.Kind, Status: "generr", GenErr: "obligation of the baseline can no longer be generated (anchor missing)"}
 			viols = append(viols, viol{o, "anchor missing"})
 		}
